@@ -374,11 +374,10 @@ namespace
 
     // ---------------------------------------------------------------------------------------------------------------
     void caseIterationN(Sink &sink, Rng &rng, unsigned n);
-    void caseIteration(Sink &sink, Rng &rng, long c)
+    void caseIteration(Sink &sink, Rng &rng)
     {
         // the 1001 values 0..1000 are cut into 41 blocks of 25; a case takes one block (a function of the case index), so that
-        // every n is visited many times per run, and within the block one n for each of the two usage forms
-        (void)c;
+        // every n is visited many times per run; each n is used directly (with reset()) and through the cast
         unsigned block = (unsigned)rng.ui(41);
         for (unsigned n = block * 25; n < block * 25 + 25 && n <= 1000; ++n) caseIterationN(sink, rng, n);
         sink.noteCase(hmix(0x17e7, block), true);
@@ -980,7 +979,7 @@ namespace
                 caseNesting(sink, rng, true);
                 break;
             case K_ITER:
-                caseIteration(sink, rng, c);
+                caseIteration(sink, rng);
                 break;
             case K_TIMED:
                 caseTimed(sink, rng, false, hb);
